@@ -98,22 +98,27 @@ def run(chk):
     # ---- R7: a weight is a Python float eagerly (and when the loss is closed over) but a 0-d array when the loss object is an
     #          argument of a jitted function (solve passes it through the loop carry): both representations must give the
     #          same formulas, i.e. no branch may be decided by the Python type of a weight
-    chk.rule("C20.R7", "loss values do not depend on whether a weight is a Python float or a 0-d array (eager / closed-over vs "
-                       "loss passed through jit)", floor=3)
+    chk.rule("C20.R7", "loss values (and their scalar shape) do not depend on whether a weight is a Python float, a 0-d array (eager / "
+                       "closed-over vs loss passed through jit) or a length-one array (accepted by the system losses)", floor=3)
     import numpy as np
     from ..alg import AT, Poly
     for eq_type, names in all_terms.items():
+        if eq_type != 'ODE':
+            names = tuple(names) + ('norm',)       # no parameter batch here: the normalisation term can be part of it
+
         def go(eq_type=eq_type, names=names):
             res = []
-            for rep, wv in (("float", 2.0), ("int", 2), ("0-d array", AT((), np.array(Poly.const(2), dtype=object)))):
+            for rep, wv in (("float", 2.0), ("int", 2), ("0-d array", AT((), np.array(Poly.const(2), dtype=object))),
+                            ("length-one array", AT((1,), np.array([Poly.const(2)], dtype=object)))):
                 S = SingleLoss(E, eq_type, 'PINN', d=2, m_u=2, m_res=2, terms=names, weight_value=wv)
                 total, terms = S.evaluate()
-                res.append((rep, {k: canon(scalar_of(v, k)) for k, v in terms.items()}))
+                scalar_of(total, f"total (weights given as {rep})")       # the total is a scalar whatever the representation
+                res.append((rep, {k: canon(scalar_of(v, f"{k} (weights given as {rep})")) for k, v in terms.items()}))
             for rep, other in res[1:]:
                 for k in res[0][1]:
                     if res[0][1][k] != other[k]:
                         raise Violation(k, f"with the weight given as {rep}: {other[k]}", f"as a Python float: {res[0][1][k]}")
-            return "identical formulas for float, int and 0-d array weights"
+            return "identical scalar formulas for float, int, 0-d and length-one array weights"
         site = {"ODE": "jinns.loss._LossODE:LossODE", "statio_PDE": "jinns.loss._LossPDE:LossPDEStatio",
                 "nonstatio_PDE": "jinns.loss._LossPDE:LossPDENonStatio"}[eq_type] + ".evaluate"
         chk.run("C20.R7", site, {"loss": eq_type, "terms": list(names)}, go, construct=f"weight representation invariance[{eq_type}]")
@@ -197,13 +202,13 @@ def run(chk):
         p = os.path.join(os.path.dirname(os.path.dirname(os.path.abspath(__file__))), "fixtures", "impure_example.py")
         tree = ast.parse(open(p).read())
         res = {q: effects.analyse_function(n) for _, q, n, _ in effects.functions_of(tree, "fixture")}
-        for q in ("writes_item", "appends", "deletes", "writes_after_alias_in_branch", "writes_in_closure"):
+        for q in ("writes_item", "appends", "deletes", "writes_after_alias_in_branch", "writes_in_closure", "merges_in_place"):
             if not res.get(q):
                 raise Inconclusive(f"effect analysis missed the impure fixture function {q}")
-        for q in ("pure", "pure_fresh_in_one_branch", "pure_rebound"):
+        for q in ("pure", "pure_fresh_in_one_branch", "pure_rebound", "pure_merge"):
             if res.get(q):
                 raise Inconclusive(f"effect analysis reported the pure fixture function {q}: {res[q]}")
-        return "fixture: 5 impure functions reported, 3 pure ones silent"
+        return "fixture: 6 impure functions reported, 4 pure ones silent"
     chk.run("C20.R0", "jv/fixtures/impure_example.py", {}, selfcheck, nontrivial=False)
 
 
